@@ -14,6 +14,10 @@ class Unsupported(Exception):
     """A construct outside the supported subset: the function is UNDECIDED, never a violation."""
 
 
+class UndefinedName(Unsupported):
+    """A name that is not bound on the current path."""
+
+
 class AnchorMismatch(Exception):
     """The contract no longer lines up with the code (loop count, missing function)."""
 
